@@ -333,6 +333,10 @@ func (s *exState) ex(v ssa.Value) string {
 	case *ssa.Convert:
 		return typeStr(v.Type()) + "(" + s.ex(v.X) + ")"
 	case *ssa.ChangeType:
+		// chan T handed on as <-chan T / chan<- T is the same channel
+		if _, isCh := v.Type().Underlying().(*types.Chan); isCh {
+			return s.ex(v.X)
+		}
 		return typeStr(v.Type()) + "(" + s.ex(v.X) + ")"
 	case *ssa.ChangeInterface:
 		return s.ex(v.X)
@@ -1399,6 +1403,33 @@ func nilGuard(fn *ssa.Function, v ssa.Value) (iff *ssa.If, nonNil, isNil *ssa.Ba
 			continue
 		}
 		if !isNilConst(other) {
+			continue
+		}
+		switch b.Op {
+		case token.NEQ:
+			return i, i.Block().Succs[0], i.Block().Succs[1]
+		case token.EQL:
+			return i, i.Block().Succs[1], i.Block().Succs[0]
+		}
+	}
+	// the error joined with those of other attempts in one variable (`for err != nil { …; x, err = open() }`): the
+	// test of that variable guards this value as well
+	for _, i := range ifsIn(fn) {
+		b, ok := i.Cond.(*ssa.BinOp)
+		if !ok || !isNilConst(b.Y) {
+			continue
+		}
+		p, isPhi := b.X.(*ssa.Phi)
+		if !isPhi || typeStr(p.Type()) != "error" {
+			continue
+		}
+		has := false
+		for _, e := range p.Edges {
+			if e == v {
+				has = true
+			}
+		}
+		if !has {
 			continue
 		}
 		switch b.Op {
